@@ -1124,6 +1124,8 @@ class Interp:
         if isinstance(callee, Path) and not args and not kwargs:
             # method of a constants object (e.g. Food.in_units_...()): extend the path
             return Path(callee.parts[:-1] + (callee.parts[-1] + "()",), callee.idx)
+        if isinstance(callee, Path):
+            return self.opaque_call(callee.key(), args, kwargs, e)
         raise Unsupported("call of " + canon(callee), e)
 
     def opaque_call(self, name, args, kwargs, node):
